@@ -107,13 +107,17 @@ let () =
         let s = ref (init_state cfg (Sx.atom sv = "1") (Sx.atom nt = "1") wk content) in
         let log_seen = ref 0 and w_seen = ref 0 in
         Stdlib.List.iteri (fun k opx ->
+          let (opx, quiet, nores) = match opx with
+            | Sx.L [Sx.A "quiet"; o] -> (o, true, false)
+            | Sx.L [Sx.A "nores"; o] -> (o, false, true)
+            | o -> (o, false, false) in
           let op = parse_op opx in
           let (s', r) = step cfg !s op in
           s := s';
           let out name v = Printf.printf "%s\t%d.%s\t%s\n" id k name v in
-          Stdlib.List.iter (fun o ->
+          if not quiet then Stdlib.List.iter (fun o ->
             match o with
-            | Sx.A "res" -> out "res" (res_str r)
+            | Sx.A "res" -> if not nores then out "res" (res_str r)
             | Sx.A "listed" -> out "listed" (listed_key (listed cfg !s))
             | Sx.A "adlog" ->
                 let l = drop !log_seen (!s).ad.alog in
